@@ -49,6 +49,14 @@ NeedK == \A d \in Active, b \in 0..1 : v_memo[d][b] => Cardinality(v_recv[d][b])
 SameSetsSameAnswer == v_cloned /\ v_recv[1] = v_recv[2] => v_memo[1] = v_memo[2]
 \* C08: an answer, once given, is given forever
 Stable == [][\A d \in {1, 2} : C!Complete(d) => C!Complete(d)']_vars
+\* Liveness (C01, "whenever all source packets of every block have been delivered it does return the object", as a
+\* temporal property): on a channel that eventually delivers every source packet to decoder 1, whatever else is
+\* delivered, duplicated or interleaved meanwhile, decoder 1 eventually answers - and by Stable keeps answering.
+FairSpec == Spec /\ \A b \in 0..1 : \A e \in 0..(Ks[b + 1] - 1) : WF_vars(C!Deliver(1, b, e) /\ UNCHANGED <<v_ks, v_cloned, v_hist>> /\ ~v_memo[1][b])
+EventuallyAnswers == <>[]C!Complete(1)
+\* ... and a clone made at any moment that is fed nothing more never changes its mind
+CloneFrozen == [][v_cloned /\ v_recv'[2] = v_recv[2] => v_memo'[2] = v_memo[2]]_vars
+
 \* oracle sanity (constant-level facts TLC evaluates once): decodability is monotone and needs K symbols
 ASSUME OracleMonotone == \A b \in 1..2 : \A S \in SUBSET Univ[b] : \A e \in Univ[b] : DecTab[b][S] => DecTab[b][S \cup {e}]
 ASSUME OracleSourceOnly == \A b \in 1..2 : DecTab[b][0..(Ks[b] - 1)]
